@@ -377,7 +377,12 @@ class WebsocketSession(object):
             return
 
         # Connected to the server, but not yet upgraded to websockets
-        yield events.Connected(url, proxy=proxy)
+        try:
+            yield events.Connected(url, proxy=proxy)
+        except GeneratorExit:
+            # The consumer abandoned the event loop, release the socket
+            self._close_socket()
+            raise
 
         selector = self._selector_cls(sock)
         log.debug('%r created', selector)
@@ -427,3 +432,5 @@ class WebsocketSession(object):
             yield events.Disconnected(graceful=True)
         finally:
             selector.close()
+            # No-op unless the event loop was abandoned with the socket open
+            self._close_socket()
